@@ -281,3 +281,143 @@ Proof.
   - apply groups_same; auto.
   - apply groups_same; auto.
 Qed.
+
+
+(** * the invariant along a run *)
+Lemma settle_groups c : forall fuel s acc s' os, reachf c s -> settle fuel s acc = (s', os) -> groups s' = groups s.
+Proof.
+  induction fuel as [|f IH]; cbn; intros s acc s' os R H.
+  - injection H as <- _. reflexivity.
+  - destruct (settle1 s) as [[s1 os1]|] eqn:E.
+    + rewrite (IH _ _ _ _ (rf_settle _ _ _ _ R E) H). apply (settle1_groups _ _ _ (reachf_inv _ _ R) E).
+    + injection H as <- _. reflexivity.
+Qed.
+
+Lemma step_groups c s l s' os : reachf c s -> step s l = Some (s', os) ->
+  emb (groups s') (groups s ++ label_groups l).
+Proof.
+  intros R H. pose proof (reachf_inv _ _ R) as I.
+  apply step_decompose in H as (Cr & s1 & os1 & Hr & Hs).
+  pose proof (raw_groups _ _ _ _ I Hr) as G.
+  destruct Hs as [(_ & -> & _)|(_ & Hs)]; auto.
+  rewrite (settle_groups c _ _ _ _ _ (rf_raw _ _ _ _ _ R Cr Hr) Hs). exact G.
+Qed.
+
+Lemma emb_tail {A} (G F X : list (list A)) : emb G F -> emb (G ++ X) (F ++ X).
+Proof. intros H. apply emb_app; auto. apply emb_refl. Qed.
+
+Lemma emb_weaken {A} (G F X : list (list A)) : emb G F -> emb G (F ++ X).
+Proof. intros H. rewrite <- (app_nil_r G). apply emb_app; auto. constructor. Qed.
+
+Lemma step_emb c s l s' os F : reachf c s -> step s l = Some (s', os) -> emb (groups s) F ->
+  emb (groups s') (F ++ label_groups l).
+Proof. intros R H E. eapply emb_trans; [apply emb_tail; exact E|eapply step_groups; eauto]. Qed.
+
+Lemma fed_groups_env tr : fed_groups (env_of tr) = flat_map label_groups tr.
+Proof.
+  induction tr as [|l tr IH]; auto. unfold env_of, fed_groups in *. cbn [filter flat_map].
+  destruct l; cbn [is_env flat_map label_groups app]; rewrite IH; reflexivity.
+Qed.
+
+(** * tokens *)
+Definition gparams (F : list (list member)) : list bytes := map mem_params (concat F).
+
+Lemma fed_params_groups env : fed_params env = gparams (fed_groups env).
+Proof.
+  unfold fed_params, fed_groups, gparams. induction env as [|l env IH]; auto. cbn [flat_map].
+  rewrite concat_app, map_app, <- IH. f_equal.
+  destruct l; auto. destruct f as [[|b ms]|[|b ms]|c]; cbn; rewrite ?app_nil_r, ?map_map; auto.
+Qed.
+
+Lemma nodupb_NoDup l : nodupb l = true -> NoDup l.
+Proof.
+  induction l as [|x l IH]; cbn; [constructor|]. intros H. apply andb_true_iff in H as [H1 H2].
+  constructor; auto. intros Hi. apply mem_bytes_in in Hi. rewrite Hi in H1. discriminate.
+Qed.
+
+Lemma nodup_map_inj {A B} (f : A -> B) l x y : NoDup (map f l) -> In x l -> In y l -> f x = f y -> x = y.
+Proof.
+  induction l as [|z l IH]; cbn; [tauto|]. intros N Hx Hy E. inversion N as [|? ? Nz Nl]; subst.
+  destruct Hx as [<-|Hx], Hy as [<-|Hy]; auto.
+  - exfalso. apply Nz. rewrite E. apply in_map; auto.
+  - exfalso. apply Nz. rewrite <- E. apply in_map; auto.
+Qed.
+
+Lemma has_tok_true p g : has_tok p g = true <-> exists x, In x g /\ mem_params x = p.
+Proof.
+  unfold has_tok. rewrite existsb_exists. split; intros (x & Hx & E); exists x; split; auto.
+  - apply beq_eq in E. auto.
+  - apply beq_eq. auto.
+Qed.
+
+Lemma tok_idx_spec F : NoDup (gparams F) -> forall a fa x, nth_error F a = Some fa -> In x fa ->
+  tok_idx (mem_params x) F = a.
+Proof.
+  unfold gparams. induction F as [|f F IH]; intros N a fa x Ea Hx; [destruct a; discriminate|].
+  cbn [concat] in N. rewrite map_app in N. cbn [tok_idx].
+  destruct a as [|a]; cbn in Ea.
+  - injection Ea as <-. replace (has_tok (mem_params x) f) with true; auto.
+    symmetry. apply has_tok_true. eauto.
+  - destruct (has_tok (mem_params x) f) eqn:Ht.
+    + exfalso. apply has_tok_true in Ht as (y & Hy & E).
+      assert (Hc : In x (concat F)) by (apply in_concat; exists fa; split; [eapply nth_error_In; eauto|auto]).
+      clear - N Hy E Hc. induction f as [|z f IHf]; [destruct Hy|]. cbn in N. inversion N as [|? ? Nz Nl]; subst.
+      destruct Hy as [->|Hy]; [|auto]. apply Nz. apply in_or_app. right. rewrite E. apply in_map; auto.
+    + f_equal. eapply IH; eauto. clear - N. induction f as [|z f IHf]; auto. cbn in N. inversion N; auto.
+Qed.
+
+Lemma tok_is_note_spec F q : tok_is_note q F = true ->
+  exists m, In m (concat F) /\ mem_params m = q /\ mem_id m = [].
+Proof.
+  unfold tok_is_note. rewrite existsb_exists. intros (m & Hm & E). apply andb_true_iff in E as [E1 E2].
+  apply beq_eq in E1. apply is_nil_true in E2. eauto.
+Qed.
+
+(** * from the order of the fed messages to the order of the dispatch units *)
+Lemma groups_unit s k t : inv s -> nth_error (tasks s) k = Some t ->
+  exists g, nth_error (groups s) (t_unit t) = Some g /\ In (tmem t) g.
+Proof.
+  intros I E. pose proof (i_unit _ I _ _ E) as Lu.
+  destruct (nth_error (units s) (t_unit t)) as [un|] eqn:Eu; [|apply nth_error_None in Eu; lia].
+  exists (map tmem (unit_tasks s (t_unit t))). split.
+  - unfold groups, ugroups. rewrite nth_error_app1 by (rewrite map_length, unit_hist_length; lia).
+    rewrite nth_error_map, (unit_hist_nth _ _ _ Eu). reflexivity.
+  - apply in_map. unfold unit_tasks. apply filter_In. split; [eapply nth_error_In; eauto|apply Nat.eqb_refl].
+Qed.
+
+Lemma unit_order s F kq tq kr tr : inv s -> emb (groups s) F -> NoDup (gparams F) ->
+  nth_error (tasks s) kq = Some tq -> nth_error (tasks s) kr = Some tr ->
+  tok_idx (t_params tq) F < tok_idx (t_params tr) F -> t_unit tq < t_unit tr.
+Proof.
+  intros I E N Eq Er Lt. destruct (Nat.lt_ge_cases (t_unit tq) (t_unit tr)) as [|Ge]; auto. exfalso.
+  destruct (groups_unit _ _ _ I Eq) as (gq & Gq & Hq). destruct (groups_unit _ _ _ I Er) as (gr & Gr & Hr).
+  destruct (emb_order _ _ E _ _ _ _ _ _ Gr Gq Ge Hr Hq) as (a & b & fa & fb & Le & Ea & Eb & Ha & Hb).
+  pose proof (tok_idx_spec F N _ _ _ Ea Ha) as Ia. pose proof (tok_idx_spec F N _ _ _ Eb Hb) as Ib.
+  change (mem_params (tmem tr)) with (t_params tr) in Ia. change (mem_params (tmem tq)) with (t_params tq) in Ib. lia.
+Qed.
+
+Lemma note_task s F k t : inv s -> emb (groups s) F -> NoDup (gparams F) -> nth_error (tasks s) k = Some t ->
+  tok_is_note (t_params t) F = true -> is_note t = true.
+Proof.
+  intros I E N Et Hn. destruct (groups_unit _ _ _ I Et) as (g & Eg & Hg).
+  destruct (emb_member _ _ E _ _ _ Eg Hg) as (b & fb & Eb & Hb).
+  assert (Hc : In (tmem t) (concat F)) by (apply in_concat; exists fb; split; [eapply nth_error_In; eauto|auto]).
+  apply tok_is_note_spec in Hn as (m & Hm & Ep & Ei).
+  assert (m = tmem t) by (eapply (nodup_map_inj mem_params); eauto). subst m.
+  unfold is_note. apply is_nil_true. exact Ei.
+Qed.
+
+(* the contradiction: a task past the semaphore while a notification of an earlier fed message is not done *)
+Lemma barrier_core c s F kq tq kr tr : reach c s -> emb (groups s) F -> NoDup (gparams F) ->
+  nth_error (tasks s) kq = Some tq -> nth_error (tasks s) kr = Some tr ->
+  tok_is_note (t_params tq) F = true -> tok_idx (t_params tq) F < tok_idx (t_params tr) F ->
+  t_pre tq = None -> t_st tr <> TSkip -> t_st tr <> TAtAcquire -> (forall b, t_st tq <> TDone b) -> False.
+Proof.
+  intros R E N Eq Er Hn Lt Pq S1 S2 Nd.
+  pose proof (reachf_inv _ _ (reach_reachf _ _ R)) as I.
+  pose proof (unit_order _ _ _ _ _ _ I E N Eq Er Lt) as Lu.
+  pose proof (note_task _ _ _ _ I E N Eq Hn) as Nq.
+  destruct (notification_before_later c s R kr tr kq tq Er Eq Lu) as (b & Hb); auto.
+  - unfold runnable. rewrite Pq. reflexivity.
+  - exact (Nd _ Hb).
+Qed.
